@@ -737,7 +737,12 @@ def eq(fr, l, r, node):
             if not forms:
                 return True
             return I.decide_eq(forms, want, f"{fr.fi.name}:{getattr(node, 'lineno', 0)}:digits")
-        return False
+        if r is None or isinstance(r, (EnumMember, ClassRef, FuncRef, AObj)) or (isinstance(r, str) and l.kind != "bitstr") \
+                or (isinstance(r, (int, bool)) and l.kind not in ("np",)):
+            return False     # a buffer is never None, an enumeration member, a class, an object, a text or a plain number
+        # anything else (a constant numpy array: element-wise comparison with broadcasting; a container of another kind) is not what
+        # python's == on the abstract object would answer
+        raise Abort(f"equality of a {l.kind} buffer and {type(r).__name__} is not modelled at {fr.fi.module.relpath}:{getattr(node, 'lineno', 0)}")
     if isinstance(l, ACond) or isinstance(r, ACond):
         if isinstance(l, ACond) and isinstance(r, bool):
             return l if r else ACond("not", l)
@@ -771,6 +776,9 @@ def eq(fr, l, r, node):
         return True
     if deep_abs(l) or deep_abs(r):
         raise Abort(f"equality of containers holding abstract values ({type(l).__name__} == {type(r).__name__}) at {fr.fi.module.relpath}:{getattr(node, 'lineno', 0)}")
+    if isinstance(l, NPArr) or isinstance(r, NPArr):
+        # numpy compares element by element (with broadcasting) and hands back an array: not the truth value python's == gives here
+        raise Abort(f"element-wise comparison of constant numpy arrays is not modelled at {fr.fi.module.relpath}:{getattr(node, 'lineno', 0)}")
     try:
         return l == r
     except Exception:
